@@ -83,6 +83,56 @@ theorem pool_queue_current (slots : Nat) (hslots : 0 < slots) (es : List PoolQue
     (hsub : s.ph i ≠ .idle) : s.done i = 1 :=
   (pool_queue_every_task_completes Generated.C19.poolTasksCapacity slots (by decide) hslots es s h hg hst i hsub).1
 
+/-- **pool_queue_progress_terminates.** From every reachable state (any configuration) the pool's
+own steps (check / send / ctxReject / take / exec, of any tasks, in any order) can only run for a
+bounded number of steps: every progress step moves one task one phase forward (measure: 4 per
+submitted task). So "nothing of the pool can move" is reached by every run that is not extended by
+the environment, and `pool_queue_every_task_completes` talks about all maximal runs. -/
+theorem pool_queue_progress_terminates (c : PoolQueue.Cfg) (es0 : List PoolQueue.Ev) (s : PoolQueue.St)
+    (h0 : PoolQueue.run c PoolQueue.init es0 = some s) :
+    ∃ bound, ∀ (es : List PoolQueue.Ev) (s' : PoolQueue.St), (∀ e ∈ es, e.progress = true) →
+      PoolQueue.run c s es = some s' → es.length ≤ bound := by
+  have hinv := PoolQueue.inv_run es0 _ s (PoolQueue.inv_init c) h0
+  obtain ⟨ts, hn, hcov⟩ := PoolQueue.covered_run es0 _ s (PoolQueue.inv_init c) PoolQueue.covered_init h0
+  refine ⟨4 * ts.length, fun es s' hp hr => ?_⟩
+  have := PoolQueue.progress_run_dec hn es s s' hinv hp hr (fun j hj => hcov j (PoolQueue.rank_idle hj))
+  have := PoolQueue.muF_le ts s.ph
+  omega
+
+/-- … and some run of the pool's own steps does reach such a state (no deadlock short of it) -/
+theorem pool_queue_reaches_stuck (c : PoolQueue.Cfg) (es0 : List PoolQueue.Ev) (s : PoolQueue.St)
+    (h0 : PoolQueue.run c PoolQueue.init es0 = some s) :
+    ∃ es s', (∀ e ∈ es, e.progress = true) ∧ PoolQueue.run c s es = some s' ∧ PoolQueue.Stuck c s' := by
+  have hinv := PoolQueue.inv_run es0 _ s (PoolQueue.inv_init c) h0
+  obtain ⟨ts, hn, hcov⟩ := PoolQueue.covered_run es0 _ s (PoolQueue.inv_init c) PoolQueue.covered_init h0
+  have hsup : ∀ j, PoolQueue.rank (s.ph j) ≠ 0 → j ∈ ts := fun j hj => hcov j (PoolQueue.rank_idle hj)
+  clear h0 hcov
+  generalize hm : PoolQueue.muF ts s.ph = m
+  induction m using Nat.strongRecOn generalizing s with
+  | _ m ih =>
+    by_cases hst : PoolQueue.Stuck c s
+    · exact ⟨[], s, by simp, rfl, hst⟩
+    · have : ∃ e : PoolQueue.Ev, e.progress = true ∧ PoolQueue.step c s e ≠ none := by
+        apply Classical.byContradiction
+        intro hne
+        apply hst
+        intro e he
+        apply Classical.byContradiction
+        intro h1
+        exact hne ⟨e, he, h1⟩
+      obtain ⟨e, he, hne⟩ := this
+      cases hs : PoolQueue.step c s e with
+      | none => exact absurd hs hne
+      | some s1 =>
+        have hd := PoolQueue.progress_step_dec hinv he hs hn hsup
+        obtain ⟨es, s', hp, hr, hst'⟩ := ih (PoolQueue.muF ts s1.ph) (by omega) s1 (PoolQueue.inv_step hinv hs) hd.2 rfl
+        refine ⟨e :: es, s', ?_, ?_, hst'⟩
+        · intro e' he'
+          rcases List.mem_cons.mp he' with h1 | h1
+          · subst h1; exact he
+          · exact hp e' h1
+        · simp only [PoolQueue.run, hs]; exact hr
+
 /-- non-vacuity: a saturated run (capacity 1, one consumer, three tasks; task 1's Submit is blocked on
 the full channel and then rejected by its context, task 0 is cancelled while it waits in the channel
 and is executed all the same, task 2 goes through after the channel has room again) ends in a state that
